@@ -438,5 +438,194 @@ theorem builtinCall2_spec (s : St) (b : Builtin) (ts : List TId) (d1 : Nat) (hI 
   all_goals vcprep
   all_goals eclose
 
+omit hrec in
+/-- the error of a pure builtin is not one of the scoping panics -/
+theorem Good_toErr (e : PErr) : Good e.toErr := by
+  cases e <;> simp [PErr.toErr, Good]
+
+set_option hygiene false in
+/-- the closers of the verification conditions of the generic pure builtin -/
+macro "pcase" : tactic => `(tactic|
+  (all_goals vcprep
+   all_goals first
+     | eclose
+     | exact ⟨fun _ => by assumption, Good_toErr _⟩
+     | exact ⟨Good_toErr _, fun _ => by assumption⟩))
+
+theorem allocPrims_spec (s : St) (items : List Prim) (hI : Inv s) :
+    ⦃fun st => ⌜st = s⌝⦄ allocPrims items ⦃Q s (fun _ _ => True)⦄ := by
+  have g3 := allocThunk_spec
+  qstart
+  unfold allocPrims
+  mvcgen [g3]
+  on_invs exact loopInv1 s ‹St›
+  all_goals clear g3
+  pcase
+
+theorem pureOut_spec (s : St) (o : PureOut) (hI : Inv s) :
+    ⦃fun st => ⌜st = s⌝⦄ pureOut o ⦃Q s (fun _ _ => True)⦄ := by
+  have g3 := allocPrims_spec rec hrec
+  qstart
+  unfold pureOut
+  mvcgen [g3]
+  all_goals clear g3
+  pcase
+
+theorem forceAll_spec (s : St) (ts : List TId) (d1 : Nat) (hI : Inv s) :
+    ⦃fun st => ⌜st = s⌝⦄ forceAll rec ts d1 ⦃Q s (fun _ _ => True)⦄ := by
+  have hr := rec_spec rec hrec
+  qstart
+  unfold forceAll
+  mvcgen [hr]
+  on_invs exact loopInv1 s ‹St›
+  all_goals clear hr
+  pcase
+
+theorem coerceAll_spec (s : St) (vals : List Value) (d1 : Nat) (hI : Inv s) :
+    ⦃fun st => ⌜st = s⌝⦄ coerceAll rec vals d1 ⦃Q s (fun _ _ => True)⦄ := by
+  have g7 := coerceToString_spec rec hrec
+  qstart
+  unfold coerceAll
+  mvcgen [g7]
+  on_invs exact loopInv1 s ‹St›
+  all_goals clear g7
+  pcase
+
+theorem forceBytes_spec (s : St) (items : List TId) (item : PArg → Except PErr Nat) (d1 : Nat) (hI : Inv s) :
+    ⦃fun st => ⌜st = s⌝⦄ forceBytes rec items item d1 ⦃Q s (fun _ _ => True)⦄ := by
+  have hr := rec_spec rec hrec
+  qstart
+  unfold forceBytes
+  mvcgen [hr]
+  on_invs exact loopInv1 s ‹St›
+  all_goals clear hr
+  pcase
+
+theorem fmtTakeW_spec (s : St) (spec : Option Format.FW) (items : List TId) (i : Nat) (hI : Inv s) :
+    ⦃fun st => ⌜st = s⌝⦄ fmtTakeW spec items i ⦃Q s (fun _ _ => True)⦄ := by
+  qstart
+  unfold fmtTakeW
+  mvcgen
+  pcase
+
+theorem fmtForceOpt_spec (s : St) (t : Option TId) (d : Nat) (hI : Inv s) :
+    ⦃fun st => ⌜st = s⌝⦄ fmtForceOpt rec t d ⦃Q s (fun _ _ => True)⦄ := by
+  have hr := rec_spec rec hrec
+  qstart
+  unfold fmtForceOpt
+  mvcgen [hr]
+  all_goals clear hr
+  pcase
+
+theorem fmtItem_spec (s : St) (c : Format.Code) (v : Value) (d : Nat) (hI : Inv s) :
+    ⦃fun st => ⌜st = s⌝⦄ fmtItem rec c v d ⦃Q s (fun _ _ => True)⦄ := by
+  have g7 := coerceToString_spec rec hrec
+  qstart
+  unfold fmtItem
+  mvcgen [g7]
+  all_goals clear g7
+  pcase
+
+theorem fmtArrayCode_spec (s : St) (c : Format.Code) (items : List TId) (i d : Nat) (hI : Inv s) :
+    ⦃fun st => ⌜st = s⌝⦄ fmtArrayCode rec c items i d ⦃Q s (fun _ _ => True)⦄ := by
+  have hr := rec_spec rec hrec
+  have g0 := fmtTakeW_spec rec hrec
+  have g1 := fmtForceOpt_spec rec hrec
+  have g2 := fmtItem_spec rec hrec
+  qstart
+  unfold fmtArrayCode
+  mvcgen [hr, g0, g1, g2]
+  all_goals clear hr g0 g1 g2
+  pcase
+
+theorem fmtArrayPart_spec (s : St) (p : Format.Part) (items : List TId) (i : Nat) (out : List Char) (d : Nat) (hI : Inv s) :
+    ⦃fun st => ⌜st = s⌝⦄ fmtArrayPart rec p items i out d ⦃Q s (fun _ _ => True)⦄ := by
+  have g := fmtArrayCode_spec rec hrec
+  qstart
+  cases p <;> (unfold fmtArrayPart; mvcgen [g]; all_goals (try clear g); pcase)
+
+theorem fmtArray_spec (s : St) (parts : List Format.Part) (items : List TId) (d : Nat) (hI : Inv s) :
+    ⦃fun st => ⌜st = s⌝⦄ fmtArray rec parts items d ⦃Q s (fun _ _ => True)⦄ := by
+  have g := fmtArrayPart_spec rec hrec
+  qstart
+  unfold fmtArray
+  mvcgen [g]
+  on_invs exact loopInv1 s ‹St›
+  all_goals clear g
+  pcase
+
+theorem fmtObjectCode_spec (s : St) (c : Format.Code) (o : OId) (d : Nat) (hI : Inv s) :
+    ⦃fun st => ⌜st = s⌝⦄ fmtObjectCode rec c o d ⦃Q s (fun _ _ => True)⦄ := by
+  have hr := rec_spec rec hrec
+  have g2 := fmtItem_spec rec hrec
+  have g5 := fieldThunk_spec
+  qstart
+  unfold fmtObjectCode
+  mvcgen [hr, g2, g5]
+  all_goals clear hr g2 g5
+  pcase
+
+theorem fmtObjectPart_spec (s : St) (p : Format.Part) (o : OId) (out : List Char) (d : Nat) (hI : Inv s) :
+    ⦃fun st => ⌜st = s⌝⦄ fmtObjectPart rec p o out d ⦃Q s (fun _ _ => True)⦄ := by
+  have g := fmtObjectCode_spec rec hrec
+  qstart
+  cases p <;> (unfold fmtObjectPart; mvcgen [g]; all_goals (try clear g); pcase)
+
+theorem fmtObject_spec (s : St) (parts : List Format.Part) (o : OId) (d : Nat) (hI : Inv s) :
+    ⦃fun st => ⌜st = s⌝⦄ fmtObject rec parts o d ⦃Q s (fun _ _ => True)⦄ := by
+  have g := fmtObjectPart_spec rec hrec
+  qstart
+  unfold fmtObject
+  mvcgen [g]
+  on_invs exact loopInv1 s ‹St›
+  all_goals clear g
+  pcase
+
+theorem pureFinish_spec (s : St) (spec : PureSpec) (vals : List Value) (d1 : Nat) (hI : Inv s) :
+    ⦃fun st => ⌜st = s⌝⦄ pureFinish rec spec vals d1 ⦃Q s (fun _ _ => True)⦄ := by
+  have g3 := forceBytes_spec rec hrec
+  have g4 := pureOut_spec rec hrec
+  have g5 := fmtArray_spec rec hrec
+  have g6 := fmtObject_spec rec hrec
+  have g7 := allocThunk_spec
+  qstart
+  unfold pureFinish
+  mvcgen [g3, g4, g5, g6, g7]
+  all_goals clear g3 g4 g5 g6 g7
+  pcase
+
+theorem binaryOp3_spec (s : St) (op : BinOp) (l r : Value) (d : Nat) (hs : Bool) (hI : Inv s) :
+    ⦃fun st => ⌜st = s⌝⦄ binaryOp3 cfg rec op l r d hs ⦃Q s (fun _ _ => True)⦄ := by
+  have g0 := binaryOp_spec cfg rec hrec
+  have g1 := pureFinish_spec rec hrec
+  have g2 := checkDepth_spec
+  qstart
+  unfold binaryOp3
+  mvcgen [g0, g1, g2]
+  all_goals clear g0 g1 g2
+  pcase
+
+/-- the generic pure builtin keeps the store well scoped: it forces thunks and allocates finished ones -/
+theorem std_pure_spec (s : St) (spec : PureSpec) (ts : List TId) (d1 : Nat) (hI : Inv s) :
+    ⦃fun st => ⌜st = s⌝⦄ std_pure rec spec ts d1 ⦃Q s (fun _ _ => True)⦄ := by
+  have g1 := forceAll_spec rec hrec
+  have g2 := coerceAll_spec rec hrec
+  have g3 := pureFinish_spec rec hrec
+  qstart
+  unfold std_pure
+  mvcgen [g1, g2, g3]
+  all_goals clear g1 g2 g3
+  pcase
+
+theorem builtinCall3_spec (s : St) (b : Builtin) (ts : List TId) (d1 : Nat) (hI : Inv s) :
+    ⦃fun st => ⌜st = s⌝⦄ builtinCall3 cfg rec b ts d1 ⦃Q s (fun _ _ => True)⦄ := by
+  have k0 := builtinCall2_spec (cfg := cfg) rec hrec
+  have k1 := std_pure_spec rec hrec
+  qstart
+  unfold builtinCall3
+  mvcgen [k0, k1]
+  all_goals clear k0 k1
+  pcase
+
 end
 end Rsj.Eval.Scope
